@@ -130,6 +130,7 @@ type gen struct {
 	tagN          int
 	inExprClosure int
 	inExprCall    int
+	strSafe       int  // >0: string operands are literals, constants and read-only variables only
 	noReturn      int  // >0: no early return statements (inside a default clause)
 	noCmt         int  // >0: no comment decoration (inside type / const groups)
 	skipCmt       bool // no comment line before the next statement (it follows a label)
